@@ -283,7 +283,10 @@ def check_property(pid, tier, seed):
             binpath = build_harness(d.get("profile", "debug"), d.get("features"))
             nsh = d.get("shards", {}).get(tier, JOBS)
             tagp = d.get("profile", "debug") + "".join("-" + k.replace("HARNESS_", "").lower() + v for k, v in sorted(d.get("env", {}).items()))
+            if d.get("features") is not None:
+                tagp += "-f" + ("_".join(d["features"]) or "none")
             files = [os.path.join(wdir, "%s.%s.%d.ndjson" % (d["driver"], tagp, k)) for k in range(nsh)]
+            assert files[0] not in [f for pl in plan for f in pl[2]], "two driver runs with the same file names"
             tmo = d.get("timeout", {}).get(tier, 1200)
 
             def job(binpath=binpath, d=d, k=0, nsh=nsh, fpath=None, tmo=tmo, di=di):
